@@ -255,6 +255,12 @@ func checkC18(c *Check) {
 				case *ssa.Call:
 					if calleeFull(x) == "builtin.append" {
 						walk(x.Call.Args[0])
+					} else if freshSliceResult(x, 0, 0) {
+						roots = append(roots, x) // a helper called in this iteration hands back a slice it allocated itself
+					}
+				case *ssa.Extract:
+					if cv, isC := x.Tuple.(*ssa.Call); isC && freshSliceResult(cv, x.Index, 0) {
+						roots = append(roots, cv)
 					}
 				case *ssa.MakeSlice:
 					roots = append(roots, x)
@@ -519,4 +525,69 @@ func (c *Check) contentScans(fns []*ssa.Function) {
 	if n < 2 {
 		c.Fail("C18-R1 lost instances: %d Content scans", n)
 	}
+}
+
+// freshSliceResult: result k of the call is, for every return of the (akash, statically known) callee, a slice
+// allocated inside that callee (make / literal / nil) and grown by append only — so every call yields a new list.
+func freshSliceResult(call *ssa.Call, k int, depth int) bool {
+	g := call.Call.StaticCallee()
+	if g == nil || g.Blocks == nil || depth > 2 || !strings.HasPrefix(fnPkgPath(g), akash) {
+		return false
+	}
+	rets := helperReturns(g, k)
+	if len(rets) == 0 {
+		return false
+	}
+	var fresh func(v ssa.Value, seen map[ssa.Value]bool) bool
+	fresh = func(v ssa.Value, seen map[ssa.Value]bool) bool {
+		if seen[v] {
+			return true
+		}
+		seen[v] = true
+		switch x := v.(type) {
+		case *ssa.Const:
+			return x.Value == nil
+		case *ssa.MakeSlice:
+			return true
+		case *ssa.Slice:
+			_, isA := x.X.(*ssa.Alloc)
+			return isA
+		case *ssa.Phi:
+			for _, e := range x.Edges {
+				if !fresh(e, seen) {
+					return false
+				}
+			}
+			return true
+		case *ssa.Call:
+			if calleeFull(x) == "builtin.append" {
+				return fresh(x.Call.Args[0], seen)
+			}
+			return freshSliceResult(x, 0, depth+1)
+		case *ssa.Extract:
+			if cv, isC := x.Tuple.(*ssa.Call); isC {
+				return freshSliceResult(cv, x.Index, depth+1)
+			}
+		case *ssa.UnOp:
+			if a, isA := x.X.(*ssa.Alloc); isA {
+				n := 0
+				for _, r := range *a.Referrers() {
+					if st, isS := r.(*ssa.Store); isS && st.Addr == ssa.Value(a) {
+						n++
+						if !fresh(st.Val, seen) {
+							return false
+						}
+					}
+				}
+				return n > 0
+			}
+		}
+		return false
+	}
+	for _, rv := range rets {
+		if !fresh(rv, map[ssa.Value]bool{}) {
+			return false
+		}
+	}
+	return true
 }
